@@ -279,8 +279,21 @@ fn schema_doc(rng: &mut Rng) -> (String, Value) {
         fixv.push("$T1");
       }
       if rng.chance(1, 2) {
-        m.insert("rewriters".into(), json!([{"id": "rw", "rule": {"kind": kind(rng)}, "fix": "N"}]));
-        t.insert("RW".into(), json!({"rewrite": {"source": "$B", "rewriters": ["rw"], "joinBy": ","}}));
+        // the rewriter's fix is plain or an object whose expansions can reach outside the captured text
+        let rw_fix = match rng.below(4) {
+          0 | 1 => json!("N"),
+          2 => json!({"template": "N", "expandStart": {"regex": "^[,(]$"}, "expandEnd": {"regex": "^[,)]$"}}),
+          _ => json!({"template": "N", "expandStart": {"regex": ",", "stopBy": "end"}}),
+        };
+        let rw_kind = if rng.chance(1, 2) { json!("identifier") } else { json!(kind(rng)) };
+        m.insert("rewriters".into(), json!([{"id": "rw", "rule": {"kind": rw_kind}, "fix": rw_fix}]));
+        let mut rw = serde_json::Map::new();
+        rw.insert("source".into(), json!(*rng.pick(&["$B", "$B", "$A", "$$$ARGS"])));
+        rw.insert("rewriters".into(), json!(["rw"]));
+        if rng.chance(1, 2) {
+          rw.insert("joinBy".into(), json!(*rng.pick(&[",", " + ", ""])));
+        }
+        t.insert("RW".into(), json!({"rewrite": Value::Object(rw)}));
         fixv.push("$RW");
       }
       m.insert("transform".into(), Value::Object(t));
